@@ -24,4 +24,7 @@ def obligations(tier):
     # callbacks destroying completed transactions (auto-destroy) in the bounded histories, completion functions, list bookkeeping
     obs += [o for o in __import__('C13').obligations(tier) if o.tier == 'quick']
     obs += [o for o in txobs.hist_all(tier, 'quick') if '.ad1.' in o.name] + [o for o in txobs.complete_all('quick') if o.name.endswith('ad1')] + txobs.pairing('quick')
+    # multipart: every chunk / piece is an exact-size heap object freed after the call (read past the chunk, kept pointers), and the
+    # parts-to-parameters hand-over happens once (a second finalisation would add the same strings again: double free at teardown)
+    obs += [o for o in __import__('C14').obligations('quick') if o.name.startswith(('param.', 'part.v0.hc0', 'part.v2.hc45', 'match.s0.ND1.chunks2', 'match.s3.ND1.chunks2'))]
     return obs
